@@ -93,8 +93,10 @@ def delta_int(off: str) -> Optional[int]:
         return None
 
 
-def lambda_elts(lam: ast.Lambda) -> Optional[List[ast.expr]]:
+def lambda_elts(lam) -> Optional[List[ast.expr]]:
     b = lam.body
+    if b is None:
+        return None
     if isinstance(b, (ast.Tuple, ast.List)):
         return list(b.elts)
     if isinstance(b, ast.Call) and b.args and isinstance(b.args[0], (ast.List, ast.Tuple)):
@@ -106,19 +108,41 @@ def lambda_elts(lam: ast.Lambda) -> Optional[List[ast.expr]]:
     return None
 
 
+class _DefAsLambda:
+    """A nested `def name(...): return <expr>` seen as the lambda it is equivalent to."""
+
+    def __init__(self, fd: ast.FunctionDef):
+        rets = [n for n in fd.body if isinstance(n, ast.Return)]
+        self.body = rets[0].value if len(rets) == 1 and isinstance(fd.body[-1], ast.Return) else None
+        self.lineno = fd.lineno
+        self.args = fd.args
+
+
 def named_lambdas(fn_node: ast.AST) -> Dict[str, ast.Lambda]:
     out = {}
     for st in ast.walk(fn_node):
         if isinstance(st, ast.Assign) and len(st.targets) == 1 and isinstance(st.targets[0], ast.Name) and isinstance(st.value, ast.Lambda):
             out[st.targets[0].id] = st.value
+        elif isinstance(st, ast.FunctionDef) and st is not fn_node:
+            d = _DefAsLambda(st)
+            if d.body is not None:
+                out[st.name] = d
     return out
 
 
 def switch_lists(fn_node: ast.AST) -> List[List[ast.expr]]:
     out = []
+    assigns = {}
+    for st in ast.walk(fn_node):
+        if isinstance(st, ast.Assign) and len(st.targets) == 1 and isinstance(st.targets[0], ast.Name) and isinstance(st.value, (ast.List, ast.Tuple)):
+            assigns.setdefault(st.targets[0].id, []).append(st.value)
     for n in ast.walk(fn_node):
-        if isinstance(n, ast.Call) and ast.unparse(n.func).endswith("lax.switch") and len(n.args) >= 2 and isinstance(n.args[1], (ast.List, ast.Tuple)):
-            out.append(list(n.args[1].elts))
+        if isinstance(n, ast.Call) and ast.unparse(n.func).endswith("lax.switch"):
+            br = n.args[1] if len(n.args) >= 2 else next((k.value for k in n.keywords if k.arg == "branches"), None)
+            if isinstance(br, ast.Name) and len(assigns.get(br.id, [])) == 1:
+                br = assigns[br.id][0]
+            if isinstance(br, (ast.List, ast.Tuple)):
+                out.append(list(br.elts))
     return out
 
 
@@ -150,8 +174,11 @@ def add_obligations(res, tree: Tree, rule: str, only_mask_tables: bool = False) 
     sl = switch_lists(f.node)
     if not sl:
         raise AnalysisError("Maze.step: no lax.switch branch list found")
+    maze_named = named_lambdas(f.node)
     for i, br in enumerate(sl[0]):
-        if not isinstance(br, ast.Lambda):
+        if isinstance(br, ast.Name) and br.id in maze_named:
+            br = maze_named[br.id]
+        if not isinstance(br, (ast.Lambda, _DefAsLambda)):
             continue
         el = lambda_elts(br)
         if el is None or i >= len(moves):
